@@ -220,7 +220,7 @@ def _structural_part(chk, m):
     prop = meta.lookup("lr_type_struct")
     chk.consult(prop)
     from ..terms import A as _A, contains as _contains, is_call as _is_call, call_arg as _call_arg, pp as _pp
-    psum = chk.summary(prop)
+    psum = chk.terms.inline(prop, 2)    # (the conversion may sit in a helper of the metaclass)
     recv = ("param", prop.param_names[0])
     sts = [e for e in psum.effects if e.kind == "store_attr"]
     ok = bool(sts) and all(e.base == recv and _contains(e.value, _A(recv, "logical_record_type")) for e in sts)
@@ -228,7 +228,7 @@ def _structural_part(chk, m):
                 "the memoised record-type byte is not stored on / computed from the receiving class itself", prop.where)
     new = meta.lookup("__new__")
     resets = new is not None and any(isinstance(n, ast.Assign) and any(isinstance(t, ast.Attribute)
-                                     and t.attr == "_lr_type_struct" for t in n.targets)
+                                     and t.attr in {e.key for e in sts} for t in n.targets)
                                      for n in walk_local(new.node))
     chk.require(resets, "R02.3", "type-byte-slot-per-class",
                 "subclasses no longer get their own (empty) type-byte slot, so they would inherit a parent's byte",
